@@ -91,7 +91,11 @@ func (fs *Fs) Open(name string) (afero.File, error) {
 		return nil, &os.PathError{Op: "open", Path: name, Err: syscall.ENOENT}
 	}
 
+	// Every handle needs a read position of its own: copy the reader, not
+	// just the pointer to it.
 	nf := *file
+	data := *file.data
+	nf.data = &data
 
 	return &nf, nil
 }
